@@ -119,11 +119,12 @@ let md a m = ((a mod m) + m) mod m
 let show_q (q : q) = let q = qred q in Printf.sprintf "%d %d" (int_of_z q.qnum) (int_of_pos q.qden)
 
 let do_case circuit =
-  let (g, d) =
+  let (g, d, sizes0) =
     if not circuit then begin
       let bs = z () in let nreg = nexti () in let regs = rep nreg rect in
       let n = nexti () in let d = rep n z in
-      (make_grid bs regs, d)
+      (* the harness's shadow circuit for size updates: movable cells of width = demand, height 1 *)
+      (make_grid bs regs, d, List.map (fun v -> ((false, v), z_of_int 1)) d)
     end else begin
       let bs = z () in let margin = z () in let nr = nexti () in
       let rows = rep nr (fun () -> let r = rect () in let o = orient_of_int (nexti ()) in { rr = r; ro = o }) in
@@ -134,8 +135,9 @@ let do_case circuit =
       let mc = List.map (fun (x, y, w, hh, o, fx, ob) -> ((((((z_of_int x, z_of_int y), z_of_int w), z_of_int hh), o), fx), ob)) cells in
       (* demand pushed by HierarchicalDensityPlacement::fromIspdCircuit: fixed ? 0 : area *)
       let d = List.map (fun (_, _, w, hh, _, fx, _) -> z_of_int (if fx then 0 else w * hh)) cells in
-      (grid_of_circuit bs margin rows mc, d)
+      (grid_of_circuit bs margin rows mc, d, List.map (fun (_, _, w, hh, _, fx, _) -> ((fx, z_of_int w), z_of_int hh)) cells)
     end in
+  let sizes = ref sizes0 in
   let n = List.length d in
   let d = ref d in
   let targets = rep n (fun () -> let a = nexti () in let b = nexti () in (a, b)) in
@@ -146,7 +148,8 @@ let do_case circuit =
   let ops = rep nops (fun () ->
     let code = nexti () in
     let args = match code with
-      | 7 -> rep 4 nexti | 8 -> let k = nexti () in k :: rep (2 * k) nexti | 11 -> rep 5 nexti | 13 -> rep 1 nexti | _ -> [] in
+      | 7 -> rep 4 nexti | 8 -> let k = nexti () in k :: rep (2 * k) nexti | 11 -> rep 5 nexti | 13 -> rep 1 nexti
+      | 16 -> let k = nexti () in k :: rep (3 * k) nexti | _ -> [] in
     (code, args)) in
   expect "@";
   let h = match make_hier g with Some h -> h | None -> raise (Bad "MODELERR: setup_hierarchy out of fuel") in
@@ -338,6 +341,27 @@ let do_case circuit =
          let post = read_post false in
          (match args with [k] -> d := List.map (fun v -> z_of_int (k * int_of_z v)) !d | _ -> ());
          print_state h pre probes; finish post
+     | 16 ->
+         (* size update through updateCellDemand(circuit): DensityUpdate.ustep on (demands, allocation) *)
+         let _acc_cpp = next () in expect "D"; let dcpp = rep n z in
+         let post = read_post false in
+         (match args with
+          | _ :: r ->
+              let rec upd sz = function
+                | c :: w :: hh :: r ->
+                    upd (if n > 0 then List.mapi (fun i (((fx, _), _) as old) ->
+                                         if i = md c n then ((fx, z_of_int w), z_of_int hh) else old) sz else sz) r
+                | _ -> sz in
+              sizes := upd !sizes r
+          | [] -> ());
+         let dnew = circuit_demands !sizes in
+         (match ustep h (!d, mpre) (Update dnew) with
+          | Some (d2, m2) ->
+              pk (if same_zero_status !d dnew then "A" else "R"); pk "D"; List.iter pz d2;
+              print_state h (of_model m2) probes
+          | None -> pk "MODELERR");
+         d := dcpp;   (* as for the allocation, the model goes on from the C++ state (its demands) *)
+         finish post
      | _ -> pk "NA"; ignore (read_post false))) ops
 
 let do_sp () =
